@@ -1021,3 +1021,157 @@ pub fn lax_constructors(inp: &PV) -> PV {
     let tgt = |f: &LOH| PV::of_ts(&<LOH as Arrow>::target(f).iter().map(|l| K::rd_l(l)).collect::<Vec<T>>());
     PV::List(vec![pv_lax(&id), pv_lax(&id2), pv_lax(&tw), src(&tw), tgt(&tw), pv_lax(&single), src(&single), tgt(&single), pv_opt_lax(sp), pv_opt_lax(sp2), pv_opt_lax(hs), pv_lax(&LOH::empty())])
 }
+
+// ------------------------------------------------------------------ C11 (imperative editing)
+fn eid(t: T) -> lax::EdgeId {
+    lax::EdgeId(RawLax::id(t))
+}
+fn cix(v: usize) -> T {
+    tm::c(v as u64, crate::explore::iw())
+}
+pub fn c11_add(inp: &PV) -> PV {
+    // inputs: state, node label l, edge label x, src ids, tgt ids, src labels, tgt labels
+    let st = inp.at(0).lax();
+    let (l, x) = (inp.at(1).t(), inp.at(2).t());
+    let ids = |p: &PV| p.ts().iter().map(|t| nid(*t)).collect::<Vec<_>>();
+    let ls = |p: &PV| p.ts().iter().map(|t| K::mk_l(*t)).collect::<Vec<L>>();
+    let mut out = vec![];
+    {
+        let mut f = lax_build(st);
+        let n = f.new_node(K::mk_l(l));
+        out.push(PV::List(vec![PV::T(tid(&n)), pv_lax(&f)]));
+    }
+    {
+        let mut f = lax_build(st);
+        let e = f.new_edge(K::mk_l(x), lax::Hyperedge { sources: ids(inp.at(3)), targets: ids(inp.at(4)) });
+        out.push(PV::List(vec![PV::T(cix(e.0)), pv_lax(&f)]));
+    }
+    {
+        let mut f = lax_build(st);
+        let (e, (s, t)) = f.new_operation(K::mk_l(x), ls(inp.at(5)), ls(inp.at(6)));
+        out.push(PV::List(vec![PV::T(cix(e.0)), PV::of_ts(&s.iter().map(tid_t).collect::<Vec<T>>()), PV::of_ts(&t.iter().map(tid_t).collect::<Vec<T>>()), pv_lax(&f)]));
+    }
+    {
+        // the hypergraph-level entry points behave the same
+        let mut h = lax_build(st).hypergraph;
+        let n = h.new_node(K::mk_l(l));
+        let e = h.new_edge(K::mk_l(x), (ids(inp.at(3)), ids(inp.at(4))));
+        out.push(PV::List(vec![PV::T(cix(n.0)), PV::T(cix(e.0)), pv_lax(&LOH { sources: vec![], targets: vec![], hypergraph: h })]));
+    }
+    PV::List(out)
+}
+fn tid_t(n: &lax::NodeId) -> T {
+    cix(n.0)
+}
+pub fn c11_edge_edit(inp: &PV) -> PV {
+    // inputs: state, edge id, label, v, w
+    let st = inp.at(0).lax();
+    let e = eid(inp.at(1).t());
+    let l = inp.at(2).t();
+    let mut f = lax_build(st);
+    let a = f.add_edge_source(e, K::mk_l(l));
+    let sa = lax_read(&f);
+    let mut g = lax_build(st);
+    let b = g.add_edge_target(e, K::mk_l(l));
+    let sb = lax_read(&g);
+    PV::List(vec![PV::T(cix(a.0)), PV::Lax(sa), PV::T(cix(b.0)), PV::Lax(sb)])
+}
+pub fn c11_unify(inp: &PV) -> PV {
+    let mut f = lax_build(inp.at(0).lax());
+    f.unify(nid(inp.at(1).t()), nid(inp.at(2).t()));
+    pv_lax(&f)
+}
+pub fn c11_delete_nodes(inp: &PV) -> PV {
+    let st = inp.at(0).lax();
+    let ids: Vec<lax::NodeId> = inp.at(1).ts().iter().map(|t| nid(*t)).collect();
+    let mut f = lax_build(st);
+    f.delete_nodes(&ids);
+    let mut h = lax_build(st).hypergraph;
+    let w = h.delete_nodes_witness(&ids);
+    let mut h2 = lax_build(st).hypergraph;
+    h2.delete_nodes(&ids);
+    let wit = PV::List(w.iter().map(|o| match o { None => PV::None, Some(v) => PV::Some(Box::new(PV::T(cix(*v)))) }).collect());
+    PV::List(vec![pv_lax(&f), wit, pv_lax(&LOH { sources: vec![], targets: vec![], hypergraph: h }), pv_lax(&LOH { sources: vec![], targets: vec![], hypergraph: h2 })])
+}
+pub fn c11_delete_edges(inp: &PV) -> PV {
+    let st = inp.at(0).lax();
+    let ids: Vec<lax::EdgeId> = inp.at(1).ts().iter().map(|t| eid(*t)).collect();
+    let mut f = lax_build(st);
+    f.delete_edges(&ids);
+    let mut h = lax_build(st).hypergraph;
+    #[allow(deprecated)]
+    h.delete_edge(&ids);
+    PV::List(vec![pv_lax(&f), pv_lax(&LOH { sources: vec![], targets: vec![], hypergraph: h })])
+}
+pub fn c11_relabel(inp: &PV) -> PV {
+    let st = inp.at(0).lax();
+    let c = K::mk_l(inp.at(1).t());
+    let o = |x: Option<LOH>| pv_opt_lax(x);
+    let f = || lax_build(st);
+    let c2 = c.clone();
+    let c3 = c.clone();
+    let c4 = c.clone();
+    PV::List(vec![
+        o(f().with_nodes(|mut v| { v.reverse(); v })),
+        o(f().with_nodes(|mut v| { v.push(c2); v })),
+        o(f().with_nodes(|mut v: Vec<L>| { v.pop(); v })),
+        pv_lax(&f().map_nodes(|l| l)),
+        pv_lax(&f().map_nodes(move |_| c3.clone())),
+        o(f().with_edges(|mut v| { v.reverse(); v })),
+        o(f().with_edges(|mut v| { v.push(c4); v })),
+        pv_lax(&f().map_edges(move |_| c.clone())),
+    ])
+}
+
+// ------------------------------------------------------------------ C19 (Var interface, forgetting)
+use open_hypergraphs::lax::var;
+pub fn c19_forget(inp: &PV) -> PV {
+    let f = lax_build(inp.at(0).lax());
+    PV::List(vec![pv_lax(&var::forget::forget(&f)), pv_lax(&var::forget::forget_monogamous(&f))])
+}
+/// scripted uses of the Var builder; inputs: script id, object labels tx, ty, extra labels
+pub fn c19_build(inp: &PV) -> PV {
+    use std::cell::RefCell;
+    use std::rc::Rc;
+    type St = Rc<RefCell<LOH>>;
+    let script = tm::as_const(inp.at(0).t()).expect("script id");
+    let (tx, ty, t1, t2) = (K::mk_l(inp.at(1).t()), K::mk_l(inp.at(2).t()), K::mk_l(inp.at(3).t()), K::mk_l(inp.at(4).t()));
+    let op3 = K::mk_l(tm::c(crate::conv::L_OP3, crate::explore::lw()));
+    let leaked: RefCell<Option<var::Var<L, L>>> = RefCell::new(None);
+    let r = var::build(|st: &St| {
+        let x = var::Var::new(st.clone(), tx.clone());
+        let y = var::Var::new(st.clone(), ty.clone());
+        match script {
+            // (x + y) * x
+            0 => (vec![x.clone(), y.clone()], vec![(x.clone() + y) * x]),
+            // -(x) ^ y, and x again as a second output
+            1 => (vec![x.clone(), y.clone()], vec![(-x.clone()) ^ y, x]),
+            // a ternary operation with two results, one operand used twice
+            2 => {
+                let rs = var::operation(st, &[x.clone(), x.clone(), y.clone()], vec![t1.clone(), t2.clone()], op3.clone());
+                (vec![x, y], rs)
+            }
+            // no operation: one input, used twice as output
+            3 => (vec![x.clone()], vec![x.clone(), x]),
+            // nothing at all
+            4 => (vec![], vec![]),
+            // x & (y - x), then not
+            5 => (vec![x.clone(), y.clone()], vec![!(x.clone() & (y - x))]),
+            // a single-result operation through fn_operation; an input that is never used
+            6 => (vec![x.clone(), y], vec![var::fn_operation(st, &[x.clone(), x], t1.clone(), op3.clone())]),
+            // a handle that outlives the builder
+            7 => {
+                *leaked.borrow_mut() = Some(x.clone());
+                (vec![x], vec![y])
+            }
+            _ => panic!("ENGINE-ERROR: unknown script"),
+        }
+    });
+    match r {
+        Ok(f) => PV::Tag("Ok".into(), vec![pv_lax(&f)]),
+        Err(state) => {
+            let f = state.borrow().clone();
+            PV::Tag("Err".into(), vec![pv_lax(&f)])
+        }
+    }
+}
